@@ -24,13 +24,13 @@ GridSeq == SetToSeq(Grid)
 EGrid == IF Thorough THEN SetToSeq(Shapes(3, 2) \cup {<<3>>, <<2, 3>>, <<1, 2, 1, 2, 2>>})
          ELSE <<<<>>, <<3>>, <<2, 2>>, <<1, 2, 1, 2, 2>>, <<7>>, <<4, 5>>, <<17>>, <<18, 2>>>>          \* element-wise operations: index logic is trivial
 
-PowKs == <<QI(-2), QI(-1), Zero, One, Two, QI(3), Half>>
+PowKs == <<QI(-2), QI(-1), Zero, One, Two, QI(3), Half, QI(4), Q(5, 2)>>          \* 4 and 5/2: differentiable at base 0 as well (derivative 0)
 ScaleKs == <<Two, Q(-1, 2), Zero, One>>
 Fns == <<"exp", "log", "sin", "cos", "tan", "sinh", "cosh", "tanh">>
 
 UDom(op, k) == CASE op = "log" -> "pos"
                  [] op = "tan" -> "cosok"
-                 [] op = "pow" -> (IF k.d # 1 THEN "pos" ELSE IF k.n < 0 THEN "nz" ELSE IF k.n <= 2 THEN "zero" ELSE "any")
+                 [] op = "pow" -> (IF k.d # 1 THEN (IF k.n > k.d THEN "pos,poszero" ELSE "pos") ELSE IF k.n < 0 THEN "nz" ELSE IF k.n <= 2 \/ k.n = 4 THEN "zero" ELSE "any")
                  [] op \in {"exp", "sinh", "cosh"} -> "any,small"
                  [] OTHER -> "any"
 
